@@ -166,8 +166,10 @@ def parse_lp(text):
     return P
 
 
-def parsed_cons(Pp, n, vs):
-    """z3 constraints of the parsed program over x1..xn (vs[j] <-> x{j+1})."""
+def parsed_cons(Pp, n, vs, binary_bounds='intersect'):
+    """z3 constraints of the parsed program over x1..xn (vs[j] <-> x{j+1}).  LP-format readers disagree on a binary column
+    that also has an explicit entry in the Bounds section: Gurobi intersects the entry with [0, 1] ('intersect'), the HiGHS
+    reader keeps the explicit entry ('explicit'); the export must describe the solved program under both readings."""
     z3 = z3mod()
     name = {('x%d' % (j + 1)): vs[j] for j in range(n)}
 
@@ -191,7 +193,10 @@ def parsed_cons(Pp, n, vs):
         lb = Pp.lb.get(v, 0.0)
         ub = Pp.ub.get(v, np.inf)
         if v in Pp.binary:
-            lb, ub = max(lb, 0.0) if v in Pp.lb else 0.0, min(ub, 1.0) if v in Pp.ub else 1.0
+            if binary_bounds == 'intersect':
+                lb, ub = max(lb, 0.0) if v in Pp.lb else 0.0, min(ub, 1.0) if v in Pp.ub else 1.0
+            else:
+                lb, ub = lb if v in Pp.lb else 0.0, ub if v in Pp.ub else 1.0
         if lb != -np.inf:
             cs.append(vs[j] >= z3.RealVal(str(Fraction(lb))))
         if ub != np.inf:
@@ -254,6 +259,15 @@ def programs(tier, rnd):
         m.st(rso.norm(x, 2) <= 1, rso.norm(y, 2) <= 2, rso.norm(w[0:3], 2) <= w[3], w[3] <= 3, rso.norm(x - y[0:2], 2) <= 2.5)
         return m
     lp('socp-cones-of-different-sizes', m3b)
+
+    def m3c():
+        # exponential cones cannot be written in the LP format: the export must refuse instead of dropping them
+        m = ro.Model()
+        x = m.dvar(2)
+        m.min(x[0] + x[1])
+        m.st(rso.exp(-x[0]) <= x[1], x >= 0, x <= 5)
+        return m
+    lp('exp-cone-not-expressible', m3c)
 
     def m4():
         m = ro.Model()
@@ -319,6 +333,20 @@ def run_case(case, ses):
     vs = [z3.Real('x%d' % (j + 1)) for j in range(P.n)]
     base = P.row_cons(vs) + real_bounds(P, vs) + quad_rows_of(P, vs)
     # ---- .lp text
+    if P.xmat or P.lmi:
+        # a program with exponential / semidefinite cones: the LP format has no way to state them
+        ses.stats.obligations += 1
+        ses.stats.kinds['inexpressible-cones-refused'] = ses.stats.kinds.get('inexpressible-cones-refused', 0) + 1
+        try:
+            text = f.lp_export()
+        except Exception:
+            ses.stats.discharged += 1
+            ses.stats.nontrivial.add(name)
+            return
+        finding(ses, 'C16:%s:cones-dropped' % name, '%s: the program has %d exponential cones but lp_export() returns a file '
+                '(which cannot contain them)' % (name, len(P.xmat)), dict(idx=case['idx'], name=name, what='cones dropped',
+                                                                          text=text[:600]), 'rsv.props.c16:replay')
+        return
     text = f.lp_export()
     try:
         Pp = parse_lp(text)
@@ -329,6 +357,9 @@ def run_case(case, ses):
                 'rsv.props.c16:replay')
         return
     compare(ses, name, 'lp', case, P, vs, base, pc, pobj, text)
+    if Pp.binary:
+        pc2, pobj2 = parsed_cons(Pp, P.n, vs, binary_bounds='explicit')
+        compare(ses, name, 'lp(explicit bounds of binaries kept)', case, P, vs, base, pc2, pobj2, text)
     ints = {('x%d' % (j + 1)) for j in range(P.n) if P.vtype[j] == 'I'}
     bins = {('x%d' % (j + 1)) for j in range(P.n) if P.vtype[j] == 'B'}
     ses.stats.obligations += 1
